@@ -55,12 +55,14 @@ func c09Edits(toks []gen.Tok) []layoutEdit {
 				out = append(out, layoutEdit{"blank-line", i, "\n", nil},
 					layoutEdit{"blank-lines-with-blanks", i, "  \n\t\n", nil},
 					layoutEdit{"comment-line", i, "# full line\n", []string{" full line"}},
+					layoutEdit{"comment-line-ending-in-backslash", i, "# not a continuation \\\n", []string{" not a continuation \\"}},
 					layoutEdit{"indented-comment-line", i, "   #x\n  ", []string{"x"}})
 			}
 		case bNL:
 			out = append(out, layoutEdit{"blanks-before-newline", i, " \t ", nil},
 				layoutEdit{"comment-before-newline", i, " # c " + fmt.Sprint(i), []string{" c " + fmt.Sprint(i)}},
 				layoutEdit{"empty-comment-before-newline", i, " #", []string{""}},
+				layoutEdit{"comment-ending-in-backslash-before-newline", i, " # c\\", []string{" c\\"}},
 				layoutEdit{"continuation-before-newline", i, " \\\n", nil})
 		default:
 			out = append(out, layoutEdit{"extra-blanks", i, "    ", nil},
@@ -75,6 +77,7 @@ func c09Edits(toks []gen.Tok) []layoutEdit {
 				out = append(out, layoutEdit{"newline-at-linebreak", i, "\n", nil},
 					layoutEdit{"blank-lines-at-linebreak", i, " \n\n  ", nil},
 					layoutEdit{"comment-at-linebreak", i, " # lb\n", []string{" lb"}},
+					layoutEdit{"comment-ending-in-backslash-at-linebreak", i, " # lb \\\n", []string{" lb \\"}},
 					layoutEdit{"comment-lines-at-linebreak", i, "\n# one\n\n  # two\n", []string{" one", " two"}})
 			}
 		}
